@@ -170,6 +170,33 @@ class Ctx:
             res = list(ex.map(run, jobs))
         return res
 
+    def scan(self, srcs, query, main_only=True):
+        """Whole-program scan: extract every unit in `srcs` (parallel processes), load it,
+        run the module-level function query(unit) -> picklable list, and concatenate.
+        Units whose source does not exist (generated files of an unbuilt tree) are reported
+        in self.notes; an extraction failure is analysis-broken."""
+        from concurrent.futures import ProcessPoolExecutor
+        jobs = []
+        for s in srcs:
+            if not os.path.isabs(s):
+                s = os.path.join(REPO, s)
+            if not os.path.exists(s):
+                self.notes.append('scan: %s missing (generated source not built), skipped' % s)
+                continue
+            cwd, flags = self.flags_for(s)
+            out = os.path.join(self.scratch, 'scan-' + hashlib.sha1(s.encode()).hexdigest()[:12] + '.json')
+            jobs.append((s, out, self._extract_cmd(s, out, flags, cwd, [REPO, self.scratch, VERIF], main_only), cwd, query))
+        res = []
+        with ProcessPoolExecutor(NPROC) as ex:
+            for s, r, err in ex.map(_scan_one, jobs):
+                if err:
+                    raise AnalysisBroken('scan: extractor failed on %s: %s' % (s, err))
+                res.extend(r)
+        self.extra_cov.setdefault('units', [])
+        self.extra_cov['units'] = sorted(set(self.extra_cov['units']) | {j[0] for j in jobs})
+        self.extra_cov['units_scanned'] = len(self.extra_cov['units'])
+        return res
+
     # -- rules -------------------------------------------------------------------------
     def rule(self, rid, desc, floor, control=False):
         r = Rule(self, rid, desc, floor, control)
@@ -181,6 +208,22 @@ class Ctx:
 
     def cleanup(self):
         shutil.rmtree(self.scratch, ignore_errors=True)
+
+
+def _scan_one(job):
+    s, out, cmd, cwd, query = job
+    p = subprocess.run(cmd, cwd=cwd, stdout=subprocess.PIPE, stderr=subprocess.PIPE, text=True)
+    if p.returncode != 0 or not os.path.exists(out):
+        return (s, [], (p.stderr or 'failed')[-400:])
+    try:
+        u = facts.Unit(out)
+        r = query(u)
+    finally:
+        try:
+            os.unlink(out)
+        except OSError:
+            pass
+    return (s, r, None)
 
 
 def _scratch_root():
@@ -276,7 +319,7 @@ def write_evidence(ctx, prop, tier, viols, nknown, broken):
         'distinct_nontrivial': max(len({l for r in ctx.rules for l, _ in r.sites}), 0),
         'rule': 'one obligation per rule instance (site in /repo source matched by a frozen rule table); distinct = distinct file:line sites',
         'samples': samples[:40] or [{'note': 'no instance analysed'}],
-        'units_analysed': sorted({u.src for u in ctx.units.values()}) + ctx.extra_cov.get('units', []),
+        'units_analysed': sorted({u.src for u in ctx.units.values()} | set(ctx.extra_cov.get('units', [])))[:400],
         'functions_analysed': sorted(ctx.functions_analysed)[:400],
         'rules': rules,
         'known_findings_reported': nknown,
